@@ -227,6 +227,63 @@ fn gen_blind(thorough: bool, rng: &mut Rng) -> Result<(), String> {
         }
         emit(&json!({"id": format!("blind/{}/oracles", k), "op": "blind_oracles", "in": {}, "impl": {"oracles": oracles}, "class": {"kind": "session", "def": name}}));
     }
+    // ---- two credentials, a declared common attribute that one sub-request REVEALS and the other hides: the sub-proof that
+    //      reveals it must carry no response for it (a response would publish the shared blinder: m-hat - c*revealed),
+    //      and in every sub-proof the keys of eq_proof.m are exactly the hidden attributes
+    {
+        let mut oracles: Vec<Value> = vec![];
+        let nm = if thorough { 6 } else { 2 };
+        for k in 0..nm {
+            let link = dec_of_hex(&rng.hex_bits(255));
+            let mut creds = vec![];
+            for dname in ["gvt_rev", "pqr_norev"] {
+                let cd = pool.get(dname);
+                let mut kb = Issuer::new_credential_values_builder().map_err(e)?;
+                for a in &cd.attrs { kb.add_dec_known(a, &format!("{}", rng.range(1, 1000000))).map_err(e)?; }
+                let known_vals = kb.finalize().map_err(e)?;
+                let mut hb = Issuer::new_credential_values_builder().map_err(e)?;
+                for a in &cd.non_attrs { hb.add_dec_hidden(a, &if a == "master_secret" { link.clone() } else { dec_of_hex(&rng.hex_bits(200)) }).map_err(e)?; }
+                let hidden_vals = hb.finalize().map_err(e)?;
+                let nonce = new_nonce().map_err(e)?;
+                let (blinded, factors, bproof) = Prover::blind_credential_secrets(&cd.pk, &cd.kcp, &hidden_vals, &nonce).map_err(e)?;
+                let inonce = new_nonce().map_err(e)?;
+                let (mut sig, sproof) = Issuer::sign_credential("prover", &blinded, &bproof, &nonce, &inonce, &known_vals, &cd.pk, &cd.sk).map_err(e)?;
+                let all = known_vals.merge(&hidden_vals).map_err(e)?;
+                Prover::process_credential_signature(&mut sig, &all, &sproof, &factors, &cd.pk, &inonce, None, None, None).map_err(e)?;
+                creds.push((dname, sig, all));
+            }
+            let reveal_first = k % 2 == 0;
+            let mut pb = Prover::new_proof_builder().map_err(e)?;
+            pb.add_common_attribute("master_secret").map_err(e)?;
+            pb.add_common_attribute("name").map_err(e)?;
+            let mut hidden_sets: Vec<BTreeSet<String>> = vec![];
+            let mut built = true;
+            for (i, (dname, sig, all)) in creds.iter().enumerate() {
+                let cd = pool.get(dname);
+                let reveals = (i == 0) == reveal_first;
+                let req = ReqSpec { revealed: if reveals { vec!["name".to_string()] } else { vec![] }, predicates: vec![] };
+                let mut hs: BTreeSet<String> = cd.attrs.iter().chain(cd.non_attrs.iter()).cloned().collect();
+                if reveals { hs.remove("name"); }
+                hidden_sets.push(hs);
+                if pb.add_sub_proof_request(&req.build()?, &cd.schema, &cd.non_schema, sig, all, &cd.pk, None, None).is_err() { built = false; }
+            }
+            if !built { continue; }   // a prover that refuses such a request leaks nothing
+            if let Ok(proof) = pb.finalize(&new_nonce().map_err(e)?) {
+                let pj = jv(&proof);
+                for (i, hs) in hidden_sets.iter().enumerate() {
+                    let keys: BTreeSet<String> = pj["proofs"][i]["primary_proof"]["eq_proof"]["m"].as_object().map(|m| m.keys().cloned().collect()).unwrap_or_default();
+                    if &keys != hs {
+                        let extra: Vec<&String> = keys.difference(hs).collect();
+                        let missing: Vec<&String> = hs.difference(&keys).collect();
+                        oracles.push(json!({"name":"no_secret_on_wire","ok":false,"detail":format!(
+                            "sub-proof {} of a two-credential proof (common attribute 'name' revealed in one sub-proof, hidden in the other): eq_proof.m has responses for {:?} beyond the hidden attributes (missing {:?}); a response for a revealed common attribute publishes the blinder shared with the other sub-proof",
+                            i, extra, missing)}));
+                    }
+                }
+            }
+        }
+        emit(&json!({"id": "blind/multi-common", "op": "blind_oracles", "in": {}, "impl": {"oracles": oracles}, "class": {"kind": "multi_common"}}));
+    }
     // population statistics: the prescribed top bit is reached
     for (size, (mx, cnt)) in maxbits.iter() {
         if *size < 100000 && *cnt >= 30 && *mx + 10 < *size {
